@@ -84,7 +84,7 @@ def gen_scenario(seed, index):
     for _ in range(n):
         k = weighted(rng, [("repeat", 60), ("sibling", 10), ("fail", 12), ("fault", 12), ("resolve", 6),
                            ("display", 3), ("derive", 4), ("introspect", 5), ("abc", 3),
-                           ("registry", 2), ("flood", 1.5),
+                           ("registry", 2), ("flood", 1.5), ("refused", 3),
                            ("mutate", 3 if not mutated else 0.5)])
         if k in ("repeat", "fail"):
             ops.append({"op": k, "i": rng.randrange(len(corpus))})
@@ -108,6 +108,9 @@ def gen_scenario(seed, index):
         elif k == "registry":
             # an unrelated generic registered with the library's annotation normaliser
             ops.append({"op": "registry"})
+        elif k == "refused":
+            # a registration the library refuses (a *args function): the method set does not change
+            ops.append({"op": "refused"})
         elif k == "flood":
             # many first-time argument types (fresh subclasses): a bounded cache must not evict
             # what was resolved before
@@ -315,6 +318,13 @@ def execute(scen):
                 stats["disturb"]["introspect:" + what] = stats["disturb"].get("introspect:" + what, 0) + 1
             except Exception as e:  # noqa: BLE001
                 trace.append(["introspect-error", op["what"], type(e).__name__])
+        elif k == "refused":
+            try:
+                h.w.funcs[target].register(h.w.mod.MVARARGS)
+                trace.append(["refused-accepted"])
+            except Exception as e:  # noqa: BLE001
+                trace.append(["refused", type(e).__name__])
+            stats["disturb"]["refused_registration"] = stats["disturb"].get("refused_registration", 0) + 1
         elif k == "registry":
             from ovld.types import normalize_type
 
